@@ -24,7 +24,7 @@ func (c09) NumCases(tier string) int {
 	if tier == "thorough" {
 		return 20000
 	}
-	return 900
+	return 2500
 }
 
 func emit(api *impl.API, s Setting, data []byte, ops []gen.Op) ([]byte, error) {
@@ -74,7 +74,7 @@ func (c09) Run(c *mon.Ctx, i int) {
 		}
 		ro := 2*W + 258
 		cyc := r.Pick(0, 0, 1, 2) * (W + 258)
-		f := cyc + 2*W + r.Intn(258)
+		f := cyc + 2*W + r.Pick(0, 0, 1, 2, 257, r.Intn(258), r.Intn(258), r.Intn(258))
 		d = gen.Make(r, []string{"text", "period", "runs", "alpha4", "farcopy"}[r.Intn(5)], cyc+ro+W+258+r.Range(100, 5000))
 		n = len(d.B)
 		flushes = []int{f}
@@ -142,6 +142,37 @@ func (c09) Run(c *mon.Ctx, i int) {
 		e := base + blk
 		fixedParts = [][]gen.Op{mk(e - 1), mk(e - 2), mk(e - 3), mk(e), mk(e + 1), mk(e-2, e-1), mk(e-1, e+blk-1), mk(e-2, e+blk-2)}
 		c.Count("huffonly-block-edge-cases", 1)
+	}
+	if i%25 == 3 && fixedParts == nil {
+		// Flush before any data (once or twice), with and without zero-length
+		// Writes around it: the same Flush positions, so the same bytes
+		s.Wrapper = []string{"zlib", "gzip", "flate"}[(i/25)%3]
+		if s.Wrapper != "flate" {
+			s.Win4K = false
+		}
+		d = gen.Make(r, gen.Families[r.Intn(8)], r.Pick(0, 1, 100, 70000))
+		n = len(d.B)
+		flushes = []int{0}
+		if r.Bool() {
+			flushes = []int{0, 0}
+		}
+		var fl []gen.Op
+		for range flushes {
+			fl = append(fl, gen.Op{Kind: "flush"})
+		}
+		cat := func(parts ...[]gen.Op) []gen.Op {
+			var o []gen.Op
+			for _, p := range parts {
+				o = append(o, p...)
+			}
+			return append(o, gen.Op{Kind: "write", N: n}, gen.Op{Kind: "close"})
+		}
+		z := []gen.Op{{Kind: "write", N: 0}}
+		fixedParts = [][]gen.Op{cat(fl), cat(z, fl), cat(fl, z), cat(z, fl, z), cat(z, z, fl)}
+		if len(fl) == 2 {
+			fixedParts = append(fixedParts, cat(fl[:1], z, fl[1:]))
+		}
+		c.Count("flush-before-data-cases", 1)
 	}
 	if i%25 == 12 && fixedParts == nil {
 		// checksum stress: long runs of the largest byte values inside one Write
